@@ -470,4 +470,6 @@ TypeOK == /\ main \in {"init", "egwait", "shutdown", "shutwrite", "ret"}
 
 \* liveness (small configs only): a stop request leads to return
 L_StopReturns == (parent = "canceled") ~> (main = "ret")
+\* ... and so does a fault raised by any goroutine of the session
+L_FaultReturns == (egerr # NONE \/ sch.err # NONE) ~> (main = "ret")
 =============================================================================
